@@ -149,25 +149,42 @@ pub fn check_order(h: &History, rep: &mut EpReport) -> OrderStats {
                 }
             }
         }
-        // (b) across responses: a first delivery with a larger id definitely earlier
-        for a in fs {
-            for b in fs {
-                if !id_lt(&a.id, &b.id) || (a.op_id, a.resp_no) == (b.op_id, b.resp_no) {
-                    continue;
+        // (b) across responses: a first delivery with a larger id definitely earlier. Scanning in
+        // id order it suffices to remember, among the smaller ids seen so far, the latest virtual
+        // receipt instant and the latest pull call: the current (larger-id) element is definitely
+        // first iff it was received strictly before that instant, or its pull returned before
+        // that pull was even called.
+        let mut sorted: Vec<&First> = fs.iter().collect();
+        sorted.sort_by(|x, y| if id_lt(&x.id, &y.id) { std::cmp::Ordering::Less } else if id_lt(&y.id, &x.id) { std::cmp::Ordering::Greater } else { std::cmp::Ordering::Equal });
+        let mut latest_vt: Option<&First> = None;
+        let mut latest_call: Option<&First> = None;
+        for b in sorted {
+            st.ordered_pairs_checked += 1;
+            let mut witness: Option<&First> = None;
+            if let Some(a) = latest_vt {
+                if b.vt < a.vt && (a.op_id, a.resp_no) != (b.op_id, b.resp_no) && id_lt(&a.id, &b.id) {
+                    witness = Some(a);
                 }
-                st.ordered_pairs_checked += 1;
-                // a has the smaller id; b definitely first?
-                let b_definitely_first = b.vt < a.vt || match (b.pull_ret_seq, a.pull_call_seq) {
-                    (Some(br), Some(ac)) => br < ac,
-                    _ => false,
-                };
-                if b_definitely_first {
-                    rep.viol(
-                        "C08",
-                        "C08:O2:first-delivery-order:across-responses",
-                        format!("{}: first delivery of {} (id {}) at {} ms #{} definitely precedes the first delivery of {} (id {}) at {} ms #{}", short(sub), b.tag, b.id, b.vt / MS, b.seq, a.tag, a.id, a.vt / MS, a.seq),
-                    );
+            }
+            if witness.is_none() {
+                if let (Some(a), Some(br)) = (latest_call, b.pull_ret_seq) {
+                    if a.pull_call_seq.map(|ac| br < ac).unwrap_or(false) && id_lt(&a.id, &b.id) {
+                        witness = Some(a);
+                    }
                 }
+            }
+            if let Some(a) = witness {
+                rep.viol(
+                    "C08",
+                    "C08:O2:first-delivery-order:across-responses",
+                    format!("{}: first delivery of {} (id {}) at {} ms #{} definitely precedes the first delivery of {} (id {}) at {} ms #{}", short(sub), b.tag, b.id, b.vt / MS, b.seq, a.tag, a.id, a.vt / MS, a.seq),
+                );
+            }
+            if latest_vt.map(|a| b.vt > a.vt).unwrap_or(true) {
+                latest_vt = Some(b);
+            }
+            if b.pull_call_seq.is_some() && latest_call.map(|a| b.pull_call_seq > a.pull_call_seq).unwrap_or(true) {
+                latest_call = Some(b);
             }
         }
     }
